@@ -215,8 +215,16 @@ var c19Policies = []string{"max-age=3600", "max-age=0", "max-age=3", "no-store",
 func emitLoaderHistory(out *Out, r *Rng) {
 	cfg := loaderCfg{cacheMode: []string{"memory", "none", "virtual", "virtual", "virtual"}[r.Intn(5)]}
 	urls := []string{"https://ctx.example/a.jsonld", "http://ctx.example/b.jsonld", "https://other.example/c"}
+	oddURL := "" // loaded, never served and never the target of a link (link targets go through URL resolution, which respells them)
 	if r.Chance(35) && cfg.cacheMode != "none" {
 		cfg.embedded = map[string]int{urls[r.Intn(2)]: 1000 + r.Intn(9)}
+		if r.Chance(40) {
+			// a document embedded under a URL that is spelled unusually: it is that exact string that is served without a request
+			odd := r.Pick([]string{"https://ctx.example/emb.jsonld#", "https://ctx.example/päth/ü.jsonld", "https://ctx.example/a b.jsonld", "https://ctx.example/x|y.jsonld",
+				"https://ctx.example/%7Euser/ctx.jsonld", "https://ctx.example/q.jsonld?", "https://CTX.example/Upper.jsonld", "https://ctx.example:443/p.jsonld", "https://ctx.example/./a/../b.jsonld", "https://ctx.example//double//slash.jsonld"})
+			cfg.embedded[odd] = 2000 + r.Intn(9)
+			oddURL = odd
+		}
 	}
 	if r.Chance(40) {
 		cfg.ipfsCli = r.Bool()
@@ -298,6 +306,9 @@ func emitLoaderHistory(out *Out, r *Rng) {
 		}
 		if altMode && r.Chance(40) {
 			u = pageURLs[r.Intn(len(pageURLs))]
+		}
+		if oddURL != "" && x >= 42 && r.Chance(30) {
+			u = oddURL
 		}
 		isPage := u == pageURLs[0] || u == pageURLs[1]
 		switch {
@@ -394,6 +405,9 @@ func emitLoaderHistory(out *Out, r *Rng) {
 				impl = append(impl, J{"err": "err", "req": nreq})
 				if errClass(err) != "err" {
 					why = append(why, "load "+u+": "+err.Error())
+				}
+				if ev, ok := cfg.embedded[u]; ok {
+					why = append(why, fmt.Sprintf("the document embedded under %s (version %d) is not returned: %v (%d request(s) made)", u, ev, err, nreq))
 				}
 			} else {
 				v := docVersion(doc)
